@@ -390,3 +390,20 @@ func (it *Interp) abiSurvivors(v Val, t types.Type) Val {
 	}
 	return out
 }
+
+// teleport/types.GetAddressFromBech32 accepts a bech32 string of any prefix: succeeds exactly for well-formed bech32
+// strings (uninterpreted predicate) and then yields the decoded, non-empty address bytes.
+func init() {
+	models[teleportMod+"/types.GetAddressFromBech32"] = func(it *Interp, a []Val) Val {
+		s := a[0].(*StrV)
+		t := it.toA(s)
+		it.strLenTerm(t)
+		if !it.p.branch(App("isbech32anyprefix", SBool, t)) {
+			return Tuple{&StrV{IsB: true, Nil: true}, it.newErr(IfaceV{}, "invalid bech32 address")}
+		}
+		r := App("bech32decanyprefix", SStr, t)
+		it.strLenTerm(r)
+		it.p.assertAxiom(Not(Eq(App("len", bvSort(64), r), BVu(64, 0))))
+		return Tuple{&StrV{T: r}, IfaceV{}}
+	}
+}
